@@ -253,7 +253,7 @@ def run_check(check_id, harnesses, tier, seed, known=None, budget_s=None, eviden
                     violation = dict(rec, failed=["validation:" + str(o["violation"])])
                     confirmed = o
                     break
-                if rec["expected"] is not None and "outputs" in o and not close_enough(rec["expected"], o["outputs"]):
+                if rec["expected"] is not None and o.get("outputs") is not None and not close_enough(rec["expected"], o["outputs"]):
                     val_err = "shim disagreement on harness %s: inputs=%s shim=%s real=%s" % (
                         rec["harness"], json.dumps(rec["inputs"])[:600], json.dumps(rec["expected"])[:600], json.dumps(o["outputs"])[:600])
                     break
